@@ -177,3 +177,12 @@ Theorem C03_oracle_sound_all : forall prop op args,
   OracleSound.passes (Oracle.oracle_spec prop op args (Oracle.oracle_model op args)).
 Proof. exact OracleSoundAll.oracle_sound. Qed.
 Print Assumptions C03_oracle_sound_all.
+
+(* ... and WITH the property-specific views (proofs/OracleSoundViews.v): for every property, operation and argument
+   list the model's answer passes the specification the driver applies - no part of `oracle_spec` is left as a trusted
+   definition (metamorphic-pair operations and ill-formed likely-subtags arguments aside: `side_conditions`) *)
+From UL Require OracleSoundViews.
+Theorem C03_oracle_sound_total : forall prop op args,
+  OracleSoundAll.side_conditions op args -> OracleSound.passes (Oracle.oracle_spec prop op args (Oracle.oracle_model op args)).
+Proof. exact OracleSoundViews.oracle_sound_total. Qed.
+Print Assumptions C03_oracle_sound_total.
